@@ -13,6 +13,8 @@
      abs_denominator = false : fix ef61d3e reverted (relative change divides by the signed reference)
      zero_guard      = false : fix 55063d2 reverted (no test for a zero reference; Python float division raises)
      inf_sentinel    = false : fix 246de4c reverted (window pre-filled with 10 * threshold)
+     nonincreasing_boundary = false : fix 05ee1f9 reverted (SPSA checker: a new optimiser run is recognised only by a
+                                      strictly decreasing evaluation counter, not by an equal one; Spsa.v only)
    [repaired] is what /repo HEAD implements.  For numpy.float64 operands the legacy division by zero yields inf/nan
    instead of raising; that variant is not modelled (the harness detects it through the property oracle). *)
 From QV Require Import Common.Base.
@@ -44,11 +46,17 @@ Definition py_max2 (a b : Q) : Q := if Qltb a b then b else a.
 (* l[-n:] for 1 <= n *)
 Definition lastn {A} (n : nat) (l : list A) : list A := skipn (length l - n) l.
 
-Record flags := { abs_denominator : bool; zero_guard : bool; inf_sentinel : bool }.
-Definition repaired : flags := {| abs_denominator := true; zero_guard := true; inf_sentinel := true |}.
-Definition legacy_signed : flags := {| abs_denominator := false; zero_guard := true; inf_sentinel := true |}.
-Definition legacy_zero : flags := {| abs_denominator := true; zero_guard := false; inf_sentinel := true |}.
-Definition legacy_sentinel : flags := {| abs_denominator := true; zero_guard := true; inf_sentinel := false |}.
+Record flags := { abs_denominator : bool; zero_guard : bool; inf_sentinel : bool; nonincreasing_boundary : bool }.
+Definition repaired : flags :=
+  {| abs_denominator := true; zero_guard := true; inf_sentinel := true; nonincreasing_boundary := true |}.
+Definition legacy_signed : flags :=
+  {| abs_denominator := false; zero_guard := true; inf_sentinel := true; nonincreasing_boundary := true |}.
+Definition legacy_zero : flags :=
+  {| abs_denominator := true; zero_guard := false; inf_sentinel := true; nonincreasing_boundary := true |}.
+Definition legacy_sentinel : flags :=
+  {| abs_denominator := true; zero_guard := true; inf_sentinel := false; nonincreasing_boundary := true |}.
+Definition legacy_run_boundary : flags :=
+  {| abs_denominator := true; zero_guard := true; inf_sentinel := true; nonincreasing_boundary := false |}.
 
 (*  relative_change = float("inf")
     if reference != 0:
@@ -147,7 +155,8 @@ Definition br_step (fl : flags) (thr : Q) (v : nat) (s : best_state) (ev : evalu
   | None => ({| b_prev := Some (best ev); b_hist := b_hist s |}, Ok false)
   | Some p =>
       (* this criterion always had abs() in the denominator *)
-      match rel_change {| abs_denominator := true; zero_guard := zero_guard fl; inf_sentinel := inf_sentinel fl |}
+      match rel_change {| abs_denominator := true; zero_guard := zero_guard fl; inf_sentinel := inf_sentinel fl;
+                          nonincreasing_boundary := nonincreasing_boundary fl |}
                        (Qabs (p - best ev)) p with
       | Err e => (s, Err e) (* raised before any assignment *)
       | Ok c =>
